@@ -5,6 +5,7 @@
 package c17
 
 import (
+	"encoding/hex"
 	"fmt"
 	"os"
 	"path/filepath"
@@ -34,6 +35,25 @@ type Corruption struct {
 	Pos   int    `json:"pos"`   // byte offset in the well-formed text
 	Bytes string `json:"bytes"` // inserted bytes (insert)
 	Off   int    `json:"off"`   // index within Bytes of the offending byte
+	// Hex, if set, holds the inserted bytes instead of Bytes: JSON cannot carry bytes that are not
+	// valid UTF-8, and a replay file must reproduce the text exactly.
+	Hex string `json:"hex,omitempty"`
+}
+
+func (c Corruption) inserted() string {
+	if c.Hex != "" {
+		bs, _ := hex.DecodeString(c.Hex)
+		return string(bs)
+	}
+	return c.Bytes
+}
+
+// binarySafe moves inserted bytes that are not valid UTF-8 into Hex.
+func (c Corruption) binarySafe() Corruption {
+	if c.Hex == "" && !utf8.ValidString(c.Bytes) {
+		c.Hex, c.Bytes = hex.EncodeToString([]byte(c.Bytes)), ""
+	}
+	return c
 }
 
 type Data struct {
@@ -102,7 +122,7 @@ func (d *Data) corrupted0() (text string, offending int, eof bool) {
 	case "truncate":
 		return t[:c.Pos], c.Pos, true
 	default:
-		text, off := t[:c.Pos]+c.Bytes+t[c.Pos:], c.Pos+c.Off
+		text, off := t[:c.Pos]+c.inserted()+t[c.Pos:], c.Pos+c.Off
 		if d.Transport == "module" {
 			// the query is the body of a definition in a module file
 			const pre = "def f: "
@@ -334,7 +354,7 @@ func judge(d *Data, res result, fname string) *kernel.Violation {
 		_ = altLine
 		return viol(d, "line", "reported line %d, the offending byte is on line %d\nstderr: %q", gotLine, wantLine, kernel.Short2(res.stderr, 600))
 	}
-	if !utf8.ValidString(excerpt) {
+	if !utf8.ValidString(excerpt) && utf8.ValidString(lineText) {
 		return viol(d, "excerpt", "the excerpt is not valid UTF-8 (a multi-byte character was cut): %q", excerpt)
 	}
 	if caretCol < 0 {
@@ -817,7 +837,7 @@ func (Prop) RunUnit(env *kernel.Env, unit int) {
 				if c.Pos == len(qq.Text()) {
 					c.Bytes = " " + tok
 				}
-				d := &Data{Format: "query", Query: &qq, Corrupt: c, Transport: kernel.Pick(r, []string{"arg", "fromfile", "module"}), FromLibrary: true}
+				d := &Data{Format: "query", Query: &qq, Corrupt: c.binarySafe(), Transport: kernel.Pick(r, []string{"arg", "fromfile", "module"}), FromLibrary: true}
 				if !try(d) {
 					break
 				}
